@@ -203,6 +203,9 @@ impl Check for C10 {
 			if let Err(p) = catch(|| at_the_end(ctx)) {
 				ctx.fail(format!("panic: {} :: position exactly at the end of the stream", p), "");
 			}
+			if let Err(p) = catch(|| fast_rates(ctx)) {
+				ctx.fail(format!("panic: {} :: fast playback rates", p), "");
+			}
 		} else if idx >= sc.len() as u64 + E2_CASES + STARVE_CASES + EOF_CASES {
 			pacer::set_mode(pacer::Mode::Pacer);
 			let w = idx - sc.len() as u64 - E2_CASES - STARVE_CASES - EOF_CASES;
@@ -1290,12 +1293,66 @@ fn at_the_end(ctx: &mut Ctx) {
 	}
 }
 
-fn mid_iteration(ctx: &mut Ctx) {
-	const N: usize = 6;
+/// playback rates of 2 and 3 (several source frames consumed per output frame): the stream still finishes whatever the
+/// parity of its length, and a starving decoder causes silence, never a frame heard twice
+fn fast_rates(ctx: &mut Ctx) {
+	for rate in [2.0f64, 3.0] {
+		for n in [4usize, 5, 12, 13] {
+			for starve_after in [None, Some(1u64), Some(2), Some(4)] {
+				ctx.evals += 1;
+				let desc = format!("{}-frame scripted stream (frame i = (i + 1)/32) at playback rate {}, {}; callbacks of 4 frames", n, rate, match starve_after { None => "decoder free to run".to_string(), Some(k) => format!("the decoder delivers {} frame(s), stalls for 3 callbacks, then runs freely", k) });
+				let mut m = rig::manager(SR, 4, rig::caps(2), MainTrackBuilder::new());
+				let first = pacer::count();
+				let (dec, stats) = ScriptedDecoder::new((0..n).map(|i| Frame::from_mono((i + 1) as f32 / 32.0)).collect(), SR, vec![2, 1, 3], 1);
+				let Ok(mut h) = m.play(StreamingSoundData::from_decoder(dec).playback_rate(rate)) else { continue };
+				let mut buf = vec![0.0f32; 8];
+				let mut heard: Vec<f32> = vec![];
+				for cb in 0..10 {
+					match starve_after {
+						Some(k) if cb == 0 => {
+							pacer::step(first, k);
+						}
+						Some(_) if cb < 4 => {}
+						_ => {
+							pacer::step(first, 40);
+						}
+					}
+					rig::callback(&mut m, &mut buf, 4, 2);
+					heard.extend((0..4).map(|i| buf[2 * i]));
+				}
+				let st = h.state();
+				// at an integer rate every output frame is a source frame (or silence): none may appear twice, order is kept
+				let codes: Vec<usize> = heard.iter().filter(|v| **v != 0.0).map(|v| (*v * 32.0).round() as usize).collect();
+				let ordered = codes.windows(2).all(|w| w[1] > w[0]);
+				if !ordered {
+					ctx.fail("a source frame is heard twice / out of order at a playback rate above 1 (a slow decoder may only cause silence) :: fast playback rates", format!("{}; heard (x32) {:?}", desc, heard.iter().map(|v| (v * 32.0).round() as i32).collect::<Vec<_>>()));
+				} else if st != PlaybackState::Stopped {
+					ctx.fail("a finite stream played faster than 1 never finishes :: fast playback rates", format!("{}; state {:?} after 10 callbacks; heard (x32) {:?}", desc, st, heard.iter().map(|v| (v * 32.0).round() as i32).collect::<Vec<_>>()));
+				}
+				ctx.nontrivial_extra += 1;
+				ctx.state(hash64(&("fast", rate.to_bits(), n, starve_after)));
+				h.stop(tw(0.0, SR));
+				rig::callback(&mut m, &mut buf, 1, 2);
+				drop(m);
+				crate::probes::reap_decoder(first, &stats);
+			}
+		}
+	}
+}
+
+pub fn mid_iteration(ctx: &mut Ctx) {
+	// two stream lengths: whether the last frame shares a chunk with its predecessor depends on the parity
+	for n_frames in [6usize, 7] {
+		mid_iteration_n(n_frames, ctx);
+	}
+}
+
+#[allow(non_snake_case)]
+fn mid_iteration_n(N: usize, ctx: &mut Ctx) {
 	let codes: Vec<f32> = (0..N).map(|i| (1 + (i * 5) % 7) as f32 / 16.0).collect();
 	let ibs = 2usize;
 	for pre in 3..=N as u64 {
-		for drained in [true, false] {
+		for (drained, parked_cbs) in [(true, 1usize), (false, 1), (false, 3)] {
 			let mut nth = 0u64;
 			loop {
 				nth += 1;
@@ -1318,12 +1375,21 @@ fn mid_iteration(ctx: &mut Ctx) {
 				// the decoder goes on and is parked inside an iteration; one callback runs there
 				pacer::arm_decoder_park(first, nth);
 				pacer::step(first, 3);
-				let rep = rig::callback(&mut m, &mut buf, ibs, 2);
+				let mut rep = rig::callback(&mut m, &mut buf, ibs, 2);
 				heard.extend([buf[0], buf[2]]);
 				states.push(format!("{:?}", h.state()));
+				// (several callbacks while the decoder stands there: the ring may be consumed to the last frame)
+				for _ in 1..parked_cbs {
+					let r = rig::callback(&mut m, &mut buf, ibs, 2);
+					if rep.ok() {
+						rep = r;
+					}
+					heard.extend([buf[0], buf[2]]);
+					states.push(format!("{:?}", h.state()));
+				}
 				let (site, _seen) = pacer::release_decoder_park(first);
 				let fired = site.is_some();
-				let desc = || format!("6-frame stream (frame i = (1 + 5i mod 7)/16), internal buffer 2; the decoder delivers {} frames, {}; then it is parked at its pass #{} through a stream.* sync point ({}) while one callback runs; then it keeps ahead", pre, if drained { "the ring is played dry" } else { "one callback" }, nth, site.unwrap_or("-"));
+				let desc = || format!("{}-frame stream (frame i = (1 + 5i mod 7)/16), internal buffer 2; the decoder delivers {} frames, {}; then it is parked at its pass #{} through a stream.* sync point ({}) while {} callback(s) run; then it keeps ahead", N, pre, if drained { "the ring is played dry" } else { "one callback" }, nth, site.unwrap_or("-"), parked_cbs);
 				let mut bad: Option<(String, String)> = None;
 				if !rep.ok() {
 					bad = Some(("the callback monitor reports".into(), format!("{:?}", rep)));
@@ -1377,6 +1443,9 @@ fn mid_iteration(ctx: &mut Ctx) {
 						bad = Some(("the sound is not Stopped long after its last frame".into(), format!("state {:?}", h.state())));
 					}
 				}
+				if std::env::var("KVH_DEBUG_MIDIT").is_ok() && parked_cbs == 3 {
+					eprintln!("MIDIT pre={} nth={} site={:?} fired={} states={:?} heard={:?} final={:?}", pre, nth, site, fired, states, heard.iter().map(|v| (v * 16.0) as i32).collect::<Vec<_>>(), h.state());
+				}
 				if let Some((kind, b)) = bad {
 					ctx.fail(
 						format!("an audio callback inside a decoder loop iteration causes more than a gap of silence: {} :: callback inside a decoder iteration", kind),
@@ -1385,7 +1454,7 @@ fn mid_iteration(ctx: &mut Ctx) {
 				}
 				if fired {
 					ctx.nontrivial_extra += 1;
-					ctx.state(hash64(&("midit", pre, drained, nth)));
+					ctx.state(hash64(&("midit", N, pre, drained, parked_cbs, nth)));
 				}
 				h.stop(tw(0.0, SR));
 				rig::callback(&mut m, &mut buf, ibs, 2);
